@@ -82,8 +82,12 @@ CLAIMED = {
                      'C07_is_prefix_of_flatten (flatten produces such encodings for every '
                      'well-formed tree, configuration, predicate and registry: Lemmas/EncFlatten.lean). That every node array of the real engine is such an encoding is checked '
                      'by the correspondence stream ((is_enc ...) lines). C07_is_prefix_refl, C07_is_prefix_trans (the prefix relation is a preorder: transitivity through any chain of dict kinds / key '
-                     'orders), C07_is_prefix_antisymm (mutual prefixes have equal node counts). prefix_errors (Python): correspondence plus an '
-                     'independent reference prefix relation in the oracle.' + PARTIAL,
+                     'orders), C07_is_prefix_antisymm (mutual prefixes have equal node counts). C07_prefix_errors_agree_partial / C07_prefix_errors_structural_partial '
+                     '(Model/PrefixErrors.lean is the Python recursion of optree.prefix_errors over the two trees; for every prefix tree without registered custom nodes - leaves, None, '
+                     'tuple, list, deque, dict / OrderedDict / defaultdict in either dict-order mode, unregistered namedtuple / struct-sequence classes, any nesting - and every full tree it '
+                     'reports nothing exactly when flatten_up_to of the prefix tree\'s treespec succeeds; Lemmas/PrefixErrors.lean). Partial: prefix trees containing registered custom nodes '
+                     '(tree_flatten_one_level also validates the full tree\'s flatten function, which flatten_up_to does not) are decided by the (prefix_errors ...) correspondence lines - error kinds '
+                     'with accessor paths, misbehaving flatten functions included - plus an independent reference prefix relation and a zoo of class relations in the oracle.' + PARTIAL,
                 technique='Lean 4 proof (refinement of the array walk to a tree-level relation, mutual structural induction) + correspondence + reference oracle', ref='6 C07'),
     'C08': dict(text='Proved for all shapes, any pattern of sibling sub-tree sizes: C08_children_refines (children() slices the post-order array by '
                      'num_nodes offsets into exactly the child encodings, in order), C08_child_refines (child(i) = i-th child under Python index '
